@@ -155,6 +155,9 @@ def part_generated(ctx, cfgs):
     n = 12 if ctx.tier == "quick" else 100
     items, stats = D.generate(ctx, "c02gen", n, ncalls=6 if ctx.tier == "thorough" else 4,
                               nprobe=2 if ctx.tier == "quick" else 6)
+    if ctx.tier != "quick":
+        # 40 minute budget: a random program runs under 36 of the ~110 configurations (rotating; probe-only ones under all)
+        D.sample_configs(items, cfgs, 36, salt=ctx.seed)
     obs = D.observe_all(items, cfgs, procs=4)
     n_cmp = 0
     reported = 0
@@ -163,7 +166,7 @@ def part_generated(ctx, cfgs):
     for i, it in enumerate(items):
         per = {}
         for j, cfg in enumerate(cfgs):
-            if not D.cfg_applicable(it["prog"], cfg):
+            if not D.cfg_applicable(it["prog"], cfg) or (i, j) not in obs:
                 continue
             st, o = obs[(i, j)]
             if st == "exc":
@@ -639,6 +642,10 @@ def part_corpus(ctx, cfgs):
             return True
         if ctx.tier == "quick":
             return cfg.name in quick_set(job, 1 if job["name"].startswith("examples/") else 2)
+        if job["name"].startswith("examples/"):       # thorough: the (large) examples under 40 rotating configurations
+            import zlib
+            h = zlib.crc32((job["name"] + str(ctx.seed)).encode())
+            return cfg.name in base_names or (j + h) % max(1, n_base // 40) == 0
         return True
     work = [(k, j) for k, job in enumerate(usable) for j, cfg in enumerate(cfgs) if wanted(job, j, cfg)]
     out = {}
